@@ -757,7 +757,8 @@ example :
     ordinary function is type checked at its definition and that of a template is not, a struct registers all its
     methods before it type checks the first body, a call that selects a template instance builds the instance's body
     only if it has none, in the scope the template was declared in, and a struct template is instantiated once per
-    argument list, in the scope it was declared in -/
+    argument list, in the scope it was declared in; the instantiation of a function template is found again by the
+    template and *all* its arguments (so the registry is a cache of `substParams`, a function of that key) -/
 theorem resolve_shape_as_modelled :
     RsslVerif.Gen.ResolveShape.shape =
       { arityGuardThenCasts := true, tournamentComparesAllPairsSkippingSelf := true,
@@ -776,6 +777,7 @@ theorem resolve_shape_as_modelled :
         allMethodsAreRegisteredBeforeTheFirstBody := true,
         templateBodyIsBuiltOncePerInstanceInTheDeclaringScope := true, aCallOfAnInstanceBuildsItsBody := true,
         structTemplateIsInstantiatedOncePerArgumentsInTheDeclaringScope := true,
+        instantiationIsFoundAgainByTemplateAndAllArguments := true, instantiationIsLookedUpBeforeItIsBuilt := true,
         innermostScopeWithTheNameWins := true,
         scopeContributesItsOwnFunctionsOnly := true, overloadsAreAppended := true,
         methodsAreAllMethodsOfThatName := true } ∧
